@@ -6,7 +6,9 @@ model        : TLC checks the classical identities (Lagrange, Jacobi, BAC-CAB, B
 spec -> code : TLC enumerates every well-typed expression program within the bounds with its exact value (and
                t-derivative) under two generic integer assignments; every program is built with the real
                VectorDot / VectorCross / VectorMixedProduct / VectorNorm (automatic evaluation, and
-               evaluate=False followed by .doit()), in every relevant id() order of the symbols; the returned
+               evaluate=False followed by .doit()), under role assignments covering the relative id() orders of the
+               operand objects (pre-created symbols, some sharing a display name, and pre-created cache-pinned cross
+               products of symbol pairs, see vecexpr.Pool); the returned
                expression is evaluated by an independent exact evaluator and compared with the model value.
                Derivative programs: .diff(t) / vector_diff must return (10 s, RecursionError = does not
                terminate) and evaluate to the model's dual part.
@@ -18,6 +20,10 @@ from __future__ import annotations
 import json
 import os
 import sys
+
+# the pre-created cross objects must stay in SymPy's LRU cache for a whole build (see vecexpr.Pool.touch):
+# must be set before sympy is imported
+os.environ.setdefault("SYMPY_CACHE_SIZE", "20000")
 from concurrent.futures import ThreadPoolExecutor
 
 from . import vecexpr as vx
@@ -58,7 +64,10 @@ CONFIGS = {
         ("diff", "diff", _cfg(MaxLen=7, MaxVec=4, VecLeaves={1, 5, 6, 7}, ScalLeaves={3}, Pows={2, -1}), ["TypeOK"]),
     ],
 }
-N_ORDERS = {"quick": 6, "thorough": 24}
+# id() orders: every relative order of every STRENGTH operand objects (symbols and pre-created cross operands)
+# is exercised, with at most CAP role assignments per program
+STRENGTH = {"quick": 3, "thorough": 4}
+CAP = {"quick": 10, "thorough": 48}
 DIFF_LIMIT_S = 10
 
 _POOL = None
@@ -94,16 +103,20 @@ def replay_one(job):  # pylint: disable=too-many-locals,too-many-branches,too-ma
     outcomes {mode, status, what, q} (status: ok | violation | outside | nonterm)."""
     pool = _init()
     prog, kind = job["p"], job["kind"]
+    lost = pool.touch()
     leaves = pool.leaves(job["order"], job["forder"])
     envs = []
     for a in vx.ASSIGNS:
         env = pool.env(leaves, a)
         env["__t__"] = pool.t
         envs.append(env)
-    names = pool.names(leaves)
+    names = pool.names_of(leaves)
     model = [vx.from_model(v) for v in job["r"]]
     mkind = model[0][0]
     out = []
+    if lost:
+        out.append(dict(mode="auto", status="outside", what="pre-created cross objects fell out of SymPy's cache: "
+                        "id() order of compound operands not controlled for this build"))
     try:
         raw = vx.build(prog, leaves, evaluate=False)
     except ValueError as e:
@@ -182,13 +195,25 @@ def replay_one(job):  # pylint: disable=too-many-locals,too-many-branches,too-ma
     return job, out
 
 
+def describe_order(job) -> str:
+    """The relative id() order of the operand objects and the display names, e.g. 'a<cross(c,d)<b<c<d names a=b'."""
+    pool = _init()
+    sig = vx.signature(job["p"])
+    roles, pairs = sig
+    labels = [vx.VEC_NAMES[r] for r in roles] + [f"cross({vx.VEC_NAMES[r]},{vx.VEC_NAMES[q]})" for r, q in pairs]
+    pat = pool.pattern(sig, job["order"])
+    same = [f"{vx.VEC_NAMES[r]}={vx.VEC_NAMES[q]}" for i, r in enumerate(roles) for q in roles[i + 1:]
+            if pool.names[job["order"][r - 1]] == pool.names[job["order"][q - 1]]]
+    return "<".join(labels[k] for k in pat) + (" same-display-name " + ",".join(same) if same else "")
+
+
 def _key(job, mode):
-    return f"{mode}: {vx.prog_str(job['p'])} | id-order a,b,c,d={list(job['order'])} f,g,h={list(job['forder'])}"
+    return f"{mode}: {vx.prog_str(job['p'])} | id-order {job['desc']} f,g,h={list(job['forder'])}"
 
 
 def _replay_case(job, mode, what):
     return {"program": vx.prog_str(job["p"]), "p": job["p"], "r": job["r"], "kind": job["kind"], "order": list(job["order"]),
-            "forder": list(job["forder"]), "mode": mode, "observed": what}
+            "forder": list(job["forder"]), "desc": job["desc"], "mode": mode, "observed": what}
 
 
 def validate_traces(run: Run, sc, records: dict, label: str) -> None:
@@ -237,7 +262,8 @@ def validate_traces(run: Run, sc, records: dict, label: str) -> None:
     run.coverage.setdefault("trace_verdicts", {})[label] = counts
 
 
-def run_config(run: Run, sc, pool, label, kind, consts, invariants, orders) -> None:
+def run_config(run: Run, sc, pool, label, kind, consts, invariants, strength, cap) -> None:
+    apool = _init()
     cmap = vx.mc_module(sc, "VecAlgebra", f"MC_{label}", consts)
     bounds = {k: (sorted(v) if isinstance(v, (set, frozenset)) else v) for k, v in consts.items() if k != "Assigns"}
     if kind == "none":
@@ -255,9 +281,15 @@ def run_config(run: Run, sc, pool, label, kind, consts, invariants, orders) -> N
     for c in programs:
         if kind == "diff" and not any(op == "vec" and k >= 5 or op == "scal" and k == 3 for op, k in c["p"]):
             continue                      # nothing depends on t
-        for order in vx.orders_for(c["p"], orders):
+        sig = vx.signature(c["p"])
+        chosen, ncov, nuni = apool.assignments(sig, strength, cap)
+        if ncov < nuni:
+            run.coverage["id_order_patterns_not_covered_by_cap"] = run.coverage.get("id_order_patterns_not_covered_by_cap", 0) + 1
+        for order in chosen:
             for forder in vx.forders_for(c["p"]):
-                jobs.append(dict(p=c["p"], r=c["r"], kind=kind, order=order, forder=forder))
+                job = dict(p=c["p"], r=c["r"], kind=kind, order=order, forder=forder)
+                job["desc"] = describe_order(job)
+                jobs.append(job)
     run.coverage.setdefault("builds", {})[label] = len(jobs)
     records: dict = {}
     stats = {"ok": 0, "violation": 0, "outside": 0, "nonterm": 0}
@@ -266,7 +298,7 @@ def run_config(run: Run, sc, pool, label, kind, consts, invariants, orders) -> N
         pstr = vx.prog_str(job["p"])
         run.count(pstr)
         if len(job["p"]) >= 5:
-            run.sample({"program": pstr, "id_order": list(job["order"]), "model_values": job["r"],
+            run.sample({"program": pstr, "id_order": job["desc"], "model_values": job["r"],
                         "returned": {o["mode"]: o.get("expr") for o in out}})
         for o in out:
             stats[o["status"]] += 1
@@ -303,57 +335,62 @@ def main() -> int:
         return replay_file(sys.argv[2])
     run = Run(PID, tier)
     _init()
-    orders = vx.covering_orders(6)[:N_ORDERS[tier]]
-    run.coverage["id_orders"] = [list(o) for o in orders]
+    run.coverage["id_order_control"] = {"strength": STRENGTH[tier], "cap": CAP[tier], "pool_symbols": vx.N_SYMS,
+                                        "display_names": _POOL.names,
+                                        "address_layout": "".join("S" if k == "s" else "c" for _, k in sorted(
+                                            [(id(o), "s") for o in _POOL.syms] + [(id(o), "c") for o in _POOL.comp.values()]))}
     with Scratch() as sc, make_pool() as pool:
         vx.copy_specs(sc)
         only = os.environ.get("VERIF_ONLY")          # debugging aid: run one configuration
         for label, kind, consts, invariants in CONFIGS[tier]:
             if only and label not in only.split(","):
                 continue
-            run_config(run, sc, pool, label, kind, consts, invariants, orders)
+            run_config(run, sc, pool, label, kind, consts, invariants, STRENGTH[tier], CAP[tier])
     run.assumptions += [
         "values are compared under two generic integer assignments (|component| <= 3): a wrong rewrite rule that "
         "happens to be right on both points is not seen",
         "scalar values are exact numbers x*sqrt(n)/d; programs whose value leaves that domain (sum of different "
         "radicands, 32-bit guard) are not generated",
-        "id() order is controlled for the symbol / applied-function leaves only (rank permutations of pre-created "
-        "objects); the order of intermediate product objects is whatever the allocator gives",
+        "id() order is controlled for the symbol leaves and for cross products of two (possibly scaled) symbol leaves "
+        "(pre-created, cache-pinned objects); the addresses of other intermediate product objects and of products over "
+        "function leaves are whatever the allocator gives",
         "a RecursionError raised by .diff / vector_diff counts as non-termination (unbounded recursion)",
     ]
     return run.finish(exhaustive=True)
 
 
 def replay_file(path: str) -> int:
-    """Re-run one recorded case.  Operand order is by id(), also of intermediate product objects, whose addresses
-    the harness cannot fix: the case is run with intermediate objects allocated above the symbols (fresh heap) and,
-    if the recorded outcome does not show, again with them allocated below (blocks freed before the symbols were
-    created are reused), a few times."""
-    import sympy as sp
-    from sympy.core.cache import clear_cache
-    from symplyphysics.core.experimental.vectors import VectorCross, VectorDot, VectorSymbol
+    """Re-run one recorded case.  The recorded id() order of the operand objects (symbols and pre-created cross
+    operands, `desc`) is looked up among the role assignments of this process' pool (the address layout differs
+    from process to process): first with the same display-name coincidences, then the id() order alone."""
     data = json.loads(open(path).read())
     case = data["case"]
-    seeds = [VectorSymbol(f"j{i}") for i in range(40)]
-    junk = [[VectorCross(seeds[i], seeds[j], evaluate=False), VectorDot(seeds[i], seeds[j], evaluate=False),
-             sp.Mul(sp.Integer(-1), seeds[i], evaluate=False), sp.Add(seeds[i], seeds[j], evaluate=False)]
-            for i in range(40) for j in range(40) if i != j]
     _init()
-    job = dict(p=case["p"], r=case["r"], kind=case["kind"], order=tuple(case["order"]), forder=tuple(case["forder"]))
-    bad, out = [], []
-    for attempt in range(8):
+    base = dict(p=case["p"], r=case["r"], kind=case["kind"], forder=tuple(case["forder"]))
+    want = case.get("desc", "")
+    exact, loose = [], []
+    for pick in vx.itertools.permutations(range(vx.N_SYMS), 4):
+        job = dict(base, order=tuple(pick))
+        job["desc"] = describe_order(job)
+        if job["desc"] == want and len(exact) < 6:
+            exact.append(job)
+        elif job["desc"].split(" same-display-name")[0] == want.split(" same-display-name")[0] and len(loose) < 6:
+            loose.append(job)
+    cands = exact + loose
+    if not cands:
+        print("(the recorded id() order is not realisable with this process' pool; using the recorded indices)")
+        job = dict(base, order=tuple(case["order"]))
+        job["desc"] = describe_order(job)
+        cands = [job]
+    bad, out, job = [], [], cands[0]
+    for job in cands:
         _, out = replay_one(job)
         bad = [o for o in out if o["status"] in ("violation", "nonterm") and o["mode"] == case.get("mode", o["mode"])]
         if bad:
-            if attempt:
-                print(f"(address-order dependent: reproduced on attempt {attempt + 1}, with intermediate objects "
-                      f"allocated below the symbols)")
             break
-        clear_cache()
-        del junk[:len(junk) // 2 + 1]           # free low blocks: the next intermediate objects reuse them
     for o in bad:
         print(f"VIOLATION property={PID} replay={path}\n  {o['mode']}: {o['what']}")
-    print("replayed:", vx.prog_str(job["p"]), "order", job["order"], "->", "violation" if bad else
+    print("replayed:", vx.prog_str(job["p"]), "| id-order", job["desc"], "->", "violation" if bad else
           "; ".join(f"{o['mode']}: {o['status']} {o.get('expr', '')}" for o in out))
     return 1 if bad else 0
 
